@@ -7,7 +7,8 @@ RULE = ("poses generated from one PRNG over the boundary pools of harness/poseca
         "u16 boundary values in limbs/colours/dimensions incl. 65536, float32 classes incl. NaN payloads/±inf/−0/subnormals, zero-sized axes, "
         "mixed point formats, float64 inputs, non-integral dimensions, negative values); a case is non-trivial when it has ≥1 component and is "
         "distinct by its full canonical JSON; compared: implementation write bytes vs model write bytes, implementation read-back vs model read-back, "
-        "and the property oracle read(write(p)) == canon(p) evaluated on the implementation alone")
+        "and the property oracle read(write(p)) == canon(p) evaluated on the implementation alone; body arrays are handed to the writer in five memory layouts (C, Fortran, transposed view, "
+        "reversed strides, strided slice of a wider buffer) and 30 % of the read-backs happen after a read of a sibling file with the same component table but other dimensions")
 ASSUMPTIONS = ["float64→float32 narrowing is numpy's/struct's (the model receives already narrowed bit patterns; the harness checks the implementation's output bits against np.float32)",
                "poses whose body shape disagrees with their header are outside the property's domain"]
 
@@ -43,12 +44,28 @@ def boundary_cases(rng):
     return out
 
 
-def impl_roundtrip(case, pose=None):
-    """(write result, read-back result) on the implementation; results are ('ok', value) or ('error', type name)"""
+def sibling_bytes(case, rng):
+    """a file with the same component table but other dimensions (or version): what an earlier read in the same process may have left in the header cache"""
+    from .. import refenc
+    sib = {"header": dict(case["header"]), "body": case["body"]}
+    if rng.random() < 0.7:
+        sib["header"]["width"] = (case["header"]["width"] + 1 + rng.randrange(500)) % 65536
+        sib["header"]["height"] = (case["header"]["height"] + 7) % 65536
+    else:
+        sib["header"]["depth"] = (case["header"]["depth"] + 3) % 65536
+    try:
+        return refenc.v02(sib)
+    except Exception:
+        return None
+
+
+def impl_roundtrip(case, pose=None, layout="C", sibling=None):
+    """(write result, read-back result) on the implementation; results are ('ok', value) or ('error', type name).
+    `layout`: memory layout of the body arrays handed to the writer; `sibling`: bytes of a near-identical file read first, without clearing the header cache in between"""
     from pose_format import Pose
     from pose_format.pose_header import PoseHeaderCache
     try:
-        pose = pose or pc.build_pose(case)
+        pose = pose or pc.build_pose(case, layout)
     except Exception as e:
         return ("error", "build:" + type(e).__name__), None
     buf = io.BytesIO()
@@ -58,6 +75,11 @@ def impl_roundtrip(case, pose=None):
         return ("error", type(e).__name__), None
     raw = buf.getvalue()
     PoseHeaderCache.clear_cache()
+    if sibling is not None:
+        try:
+            Pose.read(sibling)
+        except Exception:
+            PoseHeaderCache.clear_cache()
     try:
         back = pc.canon_pose(Pose.read(raw))
     except Exception as e:
@@ -108,7 +130,10 @@ def run(ctx):
     # implementation
     results = []
     for case, tag in cases:
-        w, r = impl_roundtrip(case)
+        layout = "C" if tag == "boundary" else rng.choice(["C", "C", "F", "T", "R", "S"])
+        sibling = sibling_bytes(case, rng) if (tag == "generated" and pc.representable(case) and rng.random() < 0.3) else None
+        ctx.count("layout:" + layout); ctx.count("history:" + ("sibling file read first" if sibling else "cold cache"))
+        w, r = impl_roundtrip(case, layout=layout, sibling=sibling)
         results.append((w, r))
     # model
     reqs = [{"op": "write", "pose": case} for case, _ in cases]
